@@ -239,10 +239,47 @@ def w4(repo, res):
     lay_rules.analysis_a(res, "W4")
 
 
+def w1b(repo, res):
+    """W1b the method forms hand the user's sources/observers to getBH_level2 *as given*: what `_validate_getBH_inputs` returns is the
+    receiver, the star-input tuple or its single element - never a list rebuilt by a flattener (a Collection passed as a source must stay
+    one entry whose field is the sum over its tree; flattening it turns one row into one row per leaf)"""
+    from origin_rules import O, org_of, run_node, find_ast
+    from absint import Seq
+    m = "magpylib._src.obj_classes.class_Collection"
+    node = find_ast(m, "BaseCollection._validate_getBH_inputs", False)
+    out, dom, it = run_node(m, node, {"self": O({"A:self"})}, name="_validate_getBH_inputs")
+    # star inputs: bound as the (empty) vararg tuple; bind it to a caller-owned origin instead and run again
+    va = node.args.vararg.arg if node.args.vararg else None
+    res.require(va is not None, "anchor vanished: *inputs of _validate_getBH_inputs")
+    import absint
+    arepo = absint.ARepo(common_repo())
+    from origdom import OriginDomain
+    d2 = OriginDomain(); itp = absint.Interp(arepo, d2); itp.tolerant = True
+    mod = arepo.module(m)
+    f = absint.FuncRef(mod, node, name="_validate_getBH_inputs")
+    out = itp.call_func(f, [O({"A:self"}), O({"P:input0"}), O({"P:input1"})], {}, node)
+    parts = out.items if isinstance(out, Seq) and len(out.items) == 2 else None
+    res.require(parts is not None, f"W1b: return value of _validate_getBH_inputs not followed ({out!r})")
+    for label, v in zip(("sources", "observers"), parts):
+        orgs = set(org_of(v))
+        ok = "fresh" not in orgs and bool(orgs & {"A:self", "P:input0", "P:input1"})
+        res.ob(f"W1b:{label} handed on as given", ok, {"rule": "W1b", "value": label, "origins": sorted(orgs)})
+        if not ok:
+            res.add(Finding("W1b", "magpylib/_src/obj_classes/class_Collection.py", "BaseCollection._validate_getBH_inputs", f"returned {label}: origins {sorted(orgs)}",
+                            f"the {label} handed to getBH_level2 may be a newly built list (e.g. the inputs run through a flattener): Collections among them lose their "
+                            "identity as one entry, so coll.getB(src_col, s) returns one row per leaf source instead of one per input"))
+
+
+def common_repo():
+    import common
+    return common.REPO
+
+
 def run(repo, res, tier):
-    res.rules = ["W1 wrapper family + chain forwarding", "W2 rank table vs signatures and validators", "W3 core exports", "W4 rows of all level-1 inputs enumerate (source, path, pixel) alike (layout typing)", "W5 core functions leave their arguments unchanged",
+    res.rules = ["W1 wrapper family + chain forwarding", "W1b method forms hand inputs on as given", "W2 rank table vs signatures and validators", "W3 core exports", "W4 rows of all level-1 inputs enumerate (source, path, pixel) alike (layout typing)", "W5 core functions leave their arguments unchanged",
                  "W6 memoising getters are invalidated by every writer of their inputs", "W7 superposed sibling calls agree", "W8 dataframe / output axis order (layout typing)"]
     w1(repo, res)
+    w1b(repo, res)
     w2(repo, res)
     w3(repo, res)
     w4(repo, res)
